@@ -70,8 +70,7 @@ def work_pairs(chunk, st):
                 st.violation('version-not-extracted:%s' % product, {'version': a, 'got': None if sa is None else sa.version})
                 continue
             for b in vs:
-                if objs[b] is None:
-                    continue
+                # the right-hand side is a plain version string (as in the database's "appeared in" fields): bare single numbers included
                 r = sa.compare_version(b)
                 want = numcmp(a, b)
                 st.evaluations += 1
